@@ -418,7 +418,13 @@ func (s *clientSocket) close(reason Reason, err error) {
 			s.transportMu.RLock()
 			defer s.transportMu.RUnlock()
 			if s.transport != nil {
-				s.transport.Close()
+				if reason == ReasonPingTimeout {
+					// The peer is gone: do not let the transport's close handshake,
+					// which waits for it (for seconds over websocket), delay OnClose.
+					go s.transport.Close()
+				} else {
+					s.transport.Close()
+				}
 			}
 		}
 	})
